@@ -108,10 +108,20 @@ class DiscoverSubcircuits(UsedQubitIndicesVisitor):
         open_at_entry = self.current
 
         # XXX: using a trace restriction here is untested
+        alone = len(block.statements) <= 1
         for n, stmt in self.trace_statements(block.statements):
+            before = (self.current, len(self.subcircuits))
             self.merge_into(
                 indices, self.visit(stmt, context=context), disjoint=block.parallel
             )
+            if block.parallel and not alone:
+                if before[0] is not self.current or before[1] != len(self.subcircuits):
+                    # Branches are simultaneous: whether the others come
+                    # before or after this one must not depend on the order
+                    # in which they are written.
+                    raise JaqalError(
+                        f"{self.p_gate} and {self.m_gate} cannot be parallel to other statements"
+                    )
 
         if had_started and (reps != 1) and (len(self.subcircuits) != count):
             raise JaqalError("measure_all -> prepare_all not supported in loops")
